@@ -58,6 +58,9 @@ SmallRVec(rv, bnd) == CommonDen(rv) <= bnd /\ \A i \in 1..Len(rv) : Abs(Numerato
 NormSqCD(rv) == R(Dot(Numerators(rv), Numerators(rv)), CommonDen(rv) * CommonDen(rv))
 DistSqCD(a, b) == NormSqCD(RVSub(a, b))
 DotCD(a, b) == R(Dot(Numerators(a), Numerators(b)), CommonDen(a) * CommonDen(b))
+\* |a - b|^2 = r2, evaluated only where the integers stay far from 2^31
+GuardBnd == 15000
+DistSqIs(a, b, r2) == SmallRVec(RVSub(a, b), GuardBnd) => DistSqCD(a, b) = r2
 RHalf == <<1, 2>>
 
 (***************************************************************************)
@@ -71,7 +74,8 @@ Straight(W) == W[1] = 0                                      \* a plane through 
 OnPole(W, X) == MDot(W, X) = 0
 
 \* pole of the geodesic with ideal end points U # V:  (U0 V0 + Us.Vs ; V0 Us + U0 Vs), i.e. centre (u+v)/(1+u.v)
-IdealPole(U, V) == Prim(<<U[1] * V[1] + Dot(SpatialOf(U), SpatialOf(V))>> \o VAdd(VScale(V[1], SpatialOf(U)), VScale(U[1], SpatialOf(V))))
+PrimOrZero(v) == IF \A i \in 1..Len(v) : v[i] = 0 THEN v ELSE Prim(v)
+IdealPole(U, V) == PrimOrZero(<<U[1] * V[1] + Dot(SpatialOf(U), SpatialOf(V))>> \o VAdd(VScale(V[1], SpatialOf(U)), VScale(U[1], SpatialOf(V))))
 \* pole of the geodesic through any two distinct points X, Y of the closed ball: the vector of the linear span of the
 \* Klein points k, l with c.k = c.l = 1, cleared of denominators
 GeoPole(X, Y) ==
@@ -80,7 +84,7 @@ GeoPole(X, Y) ==
       xy == Dot(xs, ys)
       a == Dot(ys, ys) * X[1] - xy * Y[1]
       b == Dot(xs, xs) * Y[1] - xy * X[1]
-  IN Prim(<<Dot(xs, xs) * Dot(ys, ys) - xy * xy>> \o VAdd(VScale(a, xs), VScale(b, ys)))
+  IN PrimOrZero(<<Dot(xs, xs) * Dot(ys, ys) - xy * xy>> \o VAdd(VScale(a, xs), VScale(b, ys)))
 \* n = 2: the normal of the plane spanned by X and Y (Minkowski-orthogonal to both), first non-zero entry positive
 Normal3(X, Y) == Prim(<<0 - (X[2] * Y[3] - X[3] * Y[2]), X[3] * Y[1] - X[1] * Y[3], X[1] * Y[2] - X[2] * Y[1]>>)
 
@@ -96,9 +100,9 @@ PoincareFirst(W, X, Y) == IF OrientH(W, X, Y) > 0 THEN 1 ELSE 2
 PoincareFirstOf(X, Y) == PoincareFirst(Normal3(X, Y), X, Y)
 \* the same for the points a1 U + b1 V, a2 U + b2 V of the chord between the ideal points U, V
 PoincareFirstOnChord(U, V, ab1, ab2) == IF (OrientH(IdealPole(U, V), U, V) > 0) = ChordBefore(ab1, ab2) THEN 1 ELSE 2
-\* the same in rational affine coordinates
-RCross(a, b) == RSub(RMul(a[1], b[2]), RMul(a[2], b[1]))
-Orient(a, b, c) == RSgn(RCross(RVSub(b, a), RVSub(c, a)))
+\* the same for points given by rational affine coordinates
+Homog(rv) == <<CommonDen(rv)>> \o Numerators(rv)
+Orient(a, b, c) == OrientH(Homog(a), Homog(b), Homog(c))
 \* 1 or 2: which of two points a, b of a circle starts the ccw arc from one to the other that AVOIDS the point t
 AvoidFirst(a, b, t) == IF Orient(a, t, b) < 0 THEN 1 ELSE 2
 
